@@ -332,6 +332,36 @@ int verif_case(const uint8_t *tape, size_t tlen, Info *info) {
       snprintf(hb, sizeof hb, "server/UDP prefix=%s; ", prefix == 0 ? "none" : prefix == 1 ? "observe" : prefix == 2 ? "block1-partial" : "block2-started");
       hist += hb;
       if (prefix) info->label(prefix == 1 ? "state:observation" : prefix == 2 ? "state:block1-upload" : "state:block2-download");
+      auto deliver_udp = [&](const std::vector<uint8_t> &dg, const char *what) -> bool {
+        hostile_count++;
+        ref::DecodeResult dr = ref::decode(dg.data(), dg.size(), ref::F_UDP, false);
+        bool malformed = !dr.ok;
+        size_t from = w.trace.size();
+        unsigned calls_before = cs.handler_calls;
+        std::set<std::vector<uint8_t>> earlier;
+        for (auto &e : w.trace) if (e.kind == EV_SEND && e.from_lib) earlier.insert(e.data);
+        w.peer_send(H, srv_udp, dg);
+        w.run(w.now, 20000);
+        snprintf(hb, sizeof hb, "%s[%zu]%s:%s ", what, dg.size(), malformed ? "(malformed)" : "", hex(dg, 24).c_str());
+        hist += hb;
+        if (prefix || (malformed && dr.past_header)) nontrivial = true;
+        if (malformed) {
+          malformed_count++;
+          if (cs.handler_calls != calls_before) { info->fail("a datagram the reference decoder rejects (%s) was handed to an application handler: %s", dr.why, hex(dg, 60).c_str()); return false; }
+          unsigned replies = 0;
+          for (size_t k = from; k < w.trace.size(); k++) {
+            auto &e = w.trace[k];
+            if (e.kind != EV_SEND || !e.from_lib || e.dst != hostile || earlier.count(e.data)) continue;
+            replies++;
+            ref::Msg r;
+            if (!simh::parse(e.data, &r)) { info->fail("reply to malformed input is itself malformed: %s", hex(e.data, 40).c_str()); return false; }
+            bool ok = (r.type == 3 && r.code == 0) || (r.code >> 5) == 4 || (r.code >> 5) == 5;
+            if (!ok) { info->fail("malformed datagram (%s) %s answered with %s %u.%02u - only Reset or an error reply is allowed", dr.why, hex(dg, 40).c_str(), simh::type_name(r.type).c_str(), r.code >> 5, r.code & 31); return false; }
+          }
+          if (replies > 1) { info->fail("malformed datagram (%s) %s triggered %u new datagrams", dr.why, hex(dg, 40).c_str(), replies); return false; }
+        }
+        return true;
+      };
       // ---- deliveries ----
       unsigned n = t.range(1, 12);
       for (unsigned i = 0; i < n && !w.hit_cap; i++) {
@@ -347,33 +377,53 @@ int verif_case(const uint8_t *tape, size_t tlen, Info *info) {
           dg = ref::encode(m, ref::F_UDP);
           if (kind == 1) dg = mutate(t, dg, false);
         }
-        hostile_count++;
-        ref::DecodeResult dr = ref::decode(dg.data(), dg.size(), ref::F_UDP, false);
-        bool malformed = !dr.ok;
-        size_t from = w.trace.size();
-        unsigned calls_before = cs.handler_calls;
-        std::set<std::vector<uint8_t>> earlier;
-        for (auto &e : w.trace) if (e.kind == EV_SEND && e.from_lib) earlier.insert(e.data);
-        w.peer_send(H, srv_udp, dg);
-        w.run(w.now, 20000);
-        snprintf(hb, sizeof hb, "%s[%zu]%s:%s ", raw ? "raw" : kind == 1 ? "mut" : "valid", dg.size(), malformed ? "(malformed)" : "", hex(dg, 24).c_str());
-        hist += hb;
-        if (prefix || (malformed && dr.past_header)) nontrivial = true;
-        if (malformed) {
-          malformed_count++;
-          if (cs.handler_calls != calls_before) FAIL("a datagram the reference decoder rejects (%s) was handed to an application handler: %s", dr.why, hex(dg, 60).c_str());
-          unsigned replies = 0;
-          for (size_t k = from; k < w.trace.size(); k++) {
-            auto &e = w.trace[k];
-            if (e.kind != EV_SEND || !e.from_lib || e.dst != hostile || earlier.count(e.data)) continue;
-            replies++;
-            ref::Msg r;
-            if (!simh::parse(e.data, &r)) FAIL("reply to malformed input is itself malformed: %s", hex(e.data, 40).c_str());
-            bool ok = (r.type == 3 && r.code == 0) || (r.code >> 5) == 4 || (r.code >> 5) == 5;
-            if (!ok) FAIL("malformed datagram (%s) %s answered with %s %u.%02u - only Reset or an error reply is allowed", dr.why, hex(dg, 40).c_str(), simh::type_name(r.type).c_str(), r.code >> 5, r.code & 31);
-          }
-          if (replies > 1) FAIL("malformed datagram (%s) %s triggered %u new datagrams", dr.why, hex(dg, 40).c_str(), replies);
+        if (!deliver_udp(dg, raw ? "raw" : kind == 1 ? "mut" : "valid")) { verdict = VIOLATION; goto teardown; }
+      }
+      // ---- structured extras (drawn after everything else, so that earlier tapes keep their meaning) ----
+      if (!w.hit_cap) switch (t.pick({6, 2, 2})) {
+      case 1: {
+        // a long run of parseable options, then a broken one: what the option dump of a rejected PDU has to cope with
+        ref::Msg m;
+        m.type = (uint8_t)t.range(0, 1); m.code = (uint8_t)t.range(1, 4); m.mid = mid++; m.token = t.blob(t.range(0, 8));
+        size_t target = t.range(900, 1120), total = 0;
+        if (t.flag()) { add_opt(m, 2048 + 2 * t.range(0, 40), t.blob(target)); total = target; }
+        else while (total < target) { size_t l = t.range(0, 24); add_opt(m, t.flag() ? 15 : 2048 + 2 * t.range(0, 3), t.blob(l)); total += l + 2; if (m.opts.size() > 400) break; }
+        std::vector<uint8_t> dg = ref::encode(m, ref::F_UDP);
+        switch (t.pick({3, 2, 2, 2})) {
+        case 0: dg.push_back(0xF1); dg.push_back(0x00); break;                                   // reserved delta nibble
+        case 1: dg.push_back(0xD0); break;                                                       // extended delta missing
+        case 2: dg.push_back(0x1D); dg.push_back((uint8_t)t.range(0, 255)); break;               // value longer than the rest
+        default: dg = mutate(t, dg, false); break;
         }
+        if (dg.size() > 1152) dg.resize(1152);
+        info->label("jumbo-options");
+        if (!deliver_udp(dg, "jumbo")) { verdict = VIOLATION; goto teardown; }
+        break;
+      }
+      case 2: {
+        // a Block1 upload whose (well-formed) blocks arrive in a generated order: gaps, then blocks in front of what was received
+        unsigned szx = t.range(0, 2), n = t.range(3, 9);
+        bool with_size1 = t.chance(60);
+        std::vector<unsigned> nums;
+        unsigned at = t.range(1, 30);
+        unsigned asc = t.range(2, 4);
+        for (unsigned i = 0; i < n; i++) {
+          if (i < asc) { nums.push_back(at); at += t.range(2, 12); }
+          else nums.push_back(t.pick({3, 1}) == 0 ? t.range(0, at + 5) : t.range(0, 200));
+        }
+        std::vector<uint8_t> tok = t.flag() ? up_token : t.blob(t.range(1, 4));
+        info->label("block1-out-of-order-burst");
+        for (unsigned i = 0; i < n; i++) {
+          ref::Msg m; m.type = (uint8_t)t.range(0, 1); m.code = 2; m.mid = mid++; m.token = tok; add_opt(m, 11, {'u', 'p'});
+          add_opt(m, 27, simh::uint_opt(nums[i] << 4 | 8 | szx));
+          if (with_size1) add_opt(m, 60, simh::uint_opt(100000));
+          m.payload = std::vector<uint8_t>(16u << szx, (uint8_t)('a' + i));
+          snprintf(hb, sizeof hb, "blk%u", nums[i]);
+          if (!deliver_udp(ref::encode(m, ref::F_UDP), hb)) { verdict = VIOLATION; goto teardown; }
+        }
+        break;
+      }
+      default: break;
       }
       w.run(w.now + 300, 60000);
       if (w.hit_cap) { info->inconclusive = true; goto teardown; }
